@@ -21,6 +21,11 @@ pub enum Kind {
     /// `$(trap)`: although command traps are reset in the subshell, the listing
     /// shows the traps of the parent
     CsTrap,
+    /// a pipeline element starts two asynchronous writers that share its
+    /// standard output (a pipe with a slow reader, more data than it holds)
+    /// and waits for them: afterwards its open files are as before, including
+    /// the mode (O_NONBLOCK) of the shared open file description
+    BigWriters,
 }
 
 #[derive(Clone, Debug, Serialize, Deserialize, PartialEq)]
@@ -47,6 +52,9 @@ pub struct Test {
     /// have taken the terminal back; the job is resumed with `fg` afterwards
     #[serde(default)]
     pub stops: bool,
+    /// (`BigWriters`) bytes written by each writer and their chunk size
+    #[serde(default)]
+    pub big: (u32, u32, u32),
 }
 
 #[derive(Clone, Debug, Serialize, Deserialize)]
@@ -137,6 +145,7 @@ fn gen_test(rng: &mut Rng, n: &mut u32, id: &mut u32, depth: u32) -> Test {
         Kind::Pipe3,
         Kind::Pipe3,
         Kind::CsTrap,
+        Kind::BigWriters,
     ]);
     let muts = |rng: &mut Rng, n: &mut u32, max: u32| -> Vec<String> {
         (0..rng.below(max + 1)).map(|_| mutator(rng, n)).collect()
@@ -146,7 +155,7 @@ fn gen_test(rng: &mut Rng, n: &mut u32, id: &mut u32, depth: u32) -> Test {
     let mut child2 = if matches!(kind, Kind::Pipe | Kind::Pipe3) { muts(rng, n, 4) } else { Vec::new() };
     // the second element's stdin is the pipe the positive control reads
     child2.retain(|m| m != "exec </work/e1" && m != "exec <&-");
-    let nested = if kind != Kind::CsTrap && depth < 2 && rng.below(3) == 0 {
+    let nested = if !matches!(kind, Kind::CsTrap | Kind::BigWriters) && depth < 2 && rng.below(3) == 0 {
         Some(Box::new(gen_test(rng, n, id, depth + 1)))
     } else {
         None
@@ -167,6 +176,11 @@ fn gen_test(rng: &mut Rng, n: &mut u32, id: &mut u32, depth: u32) -> Test {
         in_function,
         wrap: *rng.pick(&[0u8, 0, 0, 0, 1, 2]),
         stops: false,
+        big: if kind == Kind::BigWriters {
+            (rng.range(300, 2600), rng.range(300, 2600), *rng.pick(&[64u32, 300, 512, 700, 4096]))
+        } else {
+            (0, 0, 0)
+        },
     }
 }
 
@@ -271,6 +285,13 @@ fn render_test(t: &Test, out: &mut String) {
             inner,
             join(&t.child2)
         )),
+        Kind::BigWriters => out.push_str(&format!(
+            "{{ {}snap P{k}; gen {} {k} {c} 6 & gen {} {k} {c} 7 & wait; snap Q{k}; }} | {{ nap 2; demux {k} {k} 200 >|{ctl_file}; }}\nsnap C{k}\ncat {ctl_file}\n",
+            join(&t.child),
+            t.big.0,
+            t.big.1,
+            c = t.big.2
+        )),
     }
 }
 
@@ -300,6 +321,7 @@ fn expected_stdout_test(t: &Test, out: &mut String) {
         Kind::Paren | Kind::Pipe | Kind::Pipe3 | Kind::CsTrap => out.push_str(&format!("data{k}\n")),
         Kind::Cs => out.push_str(&format!("data{k}\nout{k}\n")),
         Kind::Async => out.push_str(&format!("mid{k}\ndata{k}\n")),
+        Kind::BigWriters => out.push_str(&format!("A len={} bad=-1 B len={} bad=-1\n", t.big.0, t.big.1)),
     }
 }
 
@@ -335,7 +357,14 @@ fn parse_snaps(obs: &Observed) -> BTreeMap<String, SnapMap> {
     out
 }
 
+/// The mode (O_NONBLOCK) of an open file description is compared only where
+/// no other process can be in the middle of a read or write on it (keys
+/// `fdnb:N`, see `Kind::BigWriters`).
 fn diff(a: &SnapMap, b: &SnapMap, skip: &dyn Fn(&str) -> bool) -> Vec<String> {
+    diff_with(a, b, &|k| k.starts_with("fdnb:") || skip(k))
+}
+
+fn diff_with(a: &SnapMap, b: &SnapMap, skip: &dyn Fn(&str) -> bool) -> Vec<String> {
     let mut d = Vec::new();
     for (k, v) in a {
         if k.starts_with('@') || skip(k) {
@@ -368,7 +397,7 @@ fn key_class(d: &str) -> &str {
         "trap" | "disp" | "mask" => "traps",
         "cwd" => "cwd",
         "umask" => "umask",
-        "fd" => "files",
+        "fd" | "fdnb" => "files",
         "nofile" => "limits",
         other => other,
     }
@@ -450,9 +479,35 @@ fn check_test(t: &Test, snaps: &BTreeMap<String, SnapMap>, tolerant: bool, job_c
         Kind::Pipe => vec![("E", false, true), ("F", true, false)],
         Kind::Pipe3 => vec![("E", false, true), ("F", true, true), ("G", true, false)],
         Kind::Cs => vec![("E", false, true)],
-        Kind::CsTrap => vec![],
+        Kind::CsTrap | Kind::BigWriters => vec![],
         _ => vec![("E", false, false)],
     };
+    if t.kind == Kind::BigWriters {
+        match (get("P"), get("Q")) {
+            (Some(p), Some(q)) => {
+                // (the element has waited for both writers, nobody else shares
+                // the pipe's writing end: the mode of every open file
+                // description is compared as well)
+                // (a writer killed from outside cannot put the mode back; the
+                // terminal is the business of the shell that controls jobs)
+                let d = diff_with(p, q, &|key| {
+                    matches!(key, "status" | "jobs" | "lastasync" | "ttyfg") || tolerant && key.starts_with("fdnb:")
+                });
+                if !d.is_empty() {
+                    return Some((
+                        "leak".into(),
+                        format!("leak:{}", key_class(&d[0])),
+                        format!(
+                            "pipeline element {k} started two asynchronous writers on its standard output and waited for them: its state changed between P{k} and Q{k}:\n  {}",
+                            d.join("\n  ")
+                        ),
+                    ));
+                }
+            }
+            _ if tolerant => {}
+            _ => return Some(("trace".into(), "trace".into(), format!("snapshots P{k}/Q{k} missing"))),
+        }
+    }
     for (label, pipe_in, pipe_out) in entries {
         let Some(e) = get(label) else {
             if tolerant {
@@ -509,7 +564,7 @@ fn check_test(t: &Test, snaps: &BTreeMap<String, SnapMap>, tolerant: bool, job_c
                         || key == "trap:S002"
                         || key == "trap:S003"
                 }
-                Kind::Cs | Kind::Pipe | Kind::Pipe3 | Kind::CsTrap => (pipe_in && key == "fd:0") || (pipe_out && key == "fd:1"),
+                Kind::Cs | Kind::Pipe | Kind::Pipe3 | Kind::CsTrap | Kind::BigWriters => (pipe_in && key == "fd:0") || (pipe_out && key == "fd:1"),
                 Kind::Paren => false,
             }
         };
@@ -784,7 +839,7 @@ impl Prop for C08 {
         "exploration"
     }
     fn rule(&self) -> String {
-        "Seeded programs of 1-4 subshell tests (kinds: ( ), $( ), both elements of a pipeline, asynchronous list; nested up to depth 3). Around every subshell the `snap` probe serialises the complete shell state (`$?`, all variables with values and attributes, positional parameters, functions by printed body, aliases, all options, trap table, cwd, umask, NOFILE limit, descriptor table as fd -> open-file-description serial + flags, all signal dispositions, signal mask). Parent mutators before and child mutators inside are drawn from 34 state-changing commands (assignment, unset, export, readonly, function definition/removal, alias/unalias, set -o/+o, set --/shift, cd, umask, trap default/ignore/command/EXIT, exec N>file / N>&- / N<file / <file, ulimit -n). Oracles: parent snapshot before == after (for & also while the child runs and after wait), child-on-entry snapshot == parent's with exactly the documented differences (context stack: the parent's plus the subshell frames; a third of the tests run inside a loop body or an `if` condition), data written by children to shared files/pipes arrives (positive control). Schedules: FIFO baseline + seeded random/PCT/round-robin/FIFO-dev with preemption so the child runs between any two kernel calls of the parent. Distinct non-trivial = distinct (script hash, schedule hash, preemption count) with >= 2 processes. Added configurations: three-command pipelines; mutators that close descriptors (also 0), assign arrays and start asynchronous jobs; crash injection (children killed with SIGKILL from outside at seeded steps) with the leak oracle kept and every snapshot that was still taken checked. Further fault configurations, same tolerant oracle: one seeded descriptor allocation of the parent or a child fails with EMFILE; the whole script runs under `ulimit -n 10` (no descriptor >= 10 can be allocated: every save of a redirected descriptor and every attempt of a job-control shell to keep the terminal open fails, again and again), job control being switched on only afterwards. Every program also runs once in an interactive shell (`-i`): SIGINT / SIGQUIT / SIGTERM are handled by the shell itself there, and a subshell must have them as the user's traps say.".into()
+        "Seeded programs of 1-4 subshell tests (kinds: ( ), $( ), both elements of a pipeline, asynchronous list; nested up to depth 3). Around every subshell the `snap` probe serialises the complete shell state (`$?`, all variables with values and attributes, positional parameters, functions by printed body, aliases, all options, trap table, cwd, umask, NOFILE limit, descriptor table as fd -> open-file-description serial + flags, all signal dispositions, signal mask). Parent mutators before and child mutators inside are drawn from 34 state-changing commands (assignment, unset, export, readonly, function definition/removal, alias/unalias, set -o/+o, set --/shift, cd, umask, trap default/ignore/command/EXIT, exec N>file / N>&- / N<file / <file, ulimit -n). Oracles: parent snapshot before == after (for & also while the child runs and after wait), child-on-entry snapshot == parent's with exactly the documented differences (context stack: the parent's plus the subshell frames; a third of the tests run inside a loop body or an `if` condition), data written by children to shared files/pipes arrives (positive control). Schedules: FIFO baseline + seeded random/PCT/round-robin/FIFO-dev with preemption so the child runs between any two kernel calls of the parent. Distinct non-trivial = distinct (script hash, schedule hash, preemption count) with >= 2 processes. Added configurations: three-command pipelines; mutators that close descriptors (also 0), assign arrays and start asynchronous jobs; crash injection (children killed with SIGKILL from outside at seeded steps) with the leak oracle kept and every snapshot that was still taken checked. Further fault configurations, same tolerant oracle: one seeded descriptor allocation of the parent or a child fails with EMFILE; the whole script runs under `ulimit -n 10` (no descriptor >= 10 can be allocated: every save of a redirected descriptor and every attempt of a job-control shell to keep the terminal open fails, again and again), job control being switched on only afterwards. Every program also runs once in an interactive shell (`-i`): SIGINT / SIGQUIT / SIGTERM are handled by the shell itself there, and a subshell must have them as the user's traps say. Kind BigWriters: a pipeline element starts two asynchronous writers on its standard output (a pipe read slowly, more data than it holds) and waits for them; its snapshots before and after agree, the O_NONBLOCK mode of every open file description included.".into()
     }
     fn assumptions(&self) -> Vec<String> {
         vec![
